@@ -42,6 +42,7 @@ def run(ctx: Ctx) -> None:
                       "run_circuit", handled, extra_tokens=tables.gl22_tokens(repo))
     rule_lc_check_inversion(ctx)
     rule_lc_toggle(ctx)
+    rule_find_lc_binding(ctx)
     from ..rules import tableau as _tb
     _tb.rule_sign_carry(ctx, [SRC, LCC])
     loops.rule_trial_fresh(ctx, LCE)
@@ -213,6 +214,35 @@ def rule_lc_check_inversion(ctx: Ctx) -> None:
                  func="lc_check", construct="lc_check: inverted list not reversed")
 
 
+def rule_find_lc_binding(ctx: Ctx) -> None:
+    """lc.sequence-source: the Clifford solution Q returned by is_lc_equivalent(A, B) maps A to B, and lc_graph_operations(G, Q) reads
+    the local-complementation sequence off R(G, Q): every caller must hand it the *first* graph of the pair that produced Q."""
+    repo = ctx.repo
+    m = repo.module(LCE)
+    n = 0
+    for fn in [f for f in m.tree.body if isinstance(f, ast.FunctionDef)]:
+        sols = {}
+        for a in ast.walk(fn):
+            if isinstance(a, ast.Assign) and isinstance(a.value, ast.Call) and call_name(a.value) == "is_lc_equivalent" \
+                    and isinstance(a.targets[0], ast.Tuple) and len(a.targets[0].elts) == 2 and len(a.value.args) >= 2:
+                sols[norm(a.targets[0].elts[1])] = (norm(a.value.args[0]), norm(a.value.args[1]))
+        for c in calls_in(fn):
+            if call_name(c) == "lc_graph_operations" and len(c.args) == 2 and norm(c.args[1]) in sols:
+                n += 1
+                ctx.touch(m, fn)
+                first, second = sols[norm(c.args[1])]
+                if norm(c.args[0]) == first:
+                    ctx.ok("lc.sequence-source", m, c, what=f"{fn.name}: sequence read off the first graph of the pair")
+                else:
+                    ctx.fail("lc.sequence-source", m, c,
+                             f"{fn.name} calls `{short(c)}` with the solution of is_lc_equivalent({first}, {second}): the sequence must be computed "
+                             f"on `{first}` (the graph the Clifford maps from); on `{norm(c.args[0])}` it returns a sequence that does not take the "
+                             f"first graph to the second (or raises IndexError)", func=fn.name,
+                             construct=f"{fn.name}: lc_graph_operations on {'the second graph' if norm(c.args[0]) == second else norm(c.args[0])}")
+    if n == 0:
+        raise AnalysisError("lc.sequence-source: no lc_graph_operations call fed by is_lc_equivalent found")
+
+
 def rule_lc_toggle(ctx: Ctx) -> None:
     repo = ctx.repo
     m = repo.module(GRAPH)
@@ -262,6 +292,7 @@ def rule_lc_toggle(ctx: Ctx) -> None:
 
 
 KNOCKOUTS = [
+    Knockout("find-lc-second-graph", LCE, sub_once("        op_list = lc_graph_operations(adj_matrix1, solution)", "        op_list = lc_graph_operations(adj_matrix2, solution)"), "lc.sequence-source", "second graph", on_fixed_only=True),
     Knockout("clifford-input-signs-dropped", SRC, sub_once("        tab = state.to_stabilizer()\n", "        tab = StabilizerTableau(state.stabilizer)\n"), "sign.carry", "without signs"),
     Knockout("det-not-reduced", LCE, sub_once("checklist.append(int(determinant_of_clifford % 2))", "checklist.append(int(determinant_of_clifford))"), "gf2.truth", "unreduced"),
     Knockout("trial-vector-hoisted", LCE, sub_once("""    for j in range(trial_count):
